@@ -3,6 +3,8 @@
 //!
 //!   exec <argv>           -> Debug rendering of Exec::cmd(argv[0]).args(argv[1..]), and to_cmdline_lossy
 //!   pipe <cmds>           -> Debug rendering of the pipeline built left to right with `|`
+//!   wincmd <argv>         -> assemble_cmdline (cut out of the cfg(windows) source) over UTF-16 units
+//!   winenv <k=v,...>      -> format_env_block (same)
 use spharness::*;
 use std::io::{self, BufRead, Write};
 use subprocess::{Exec, Pipeline};
@@ -39,6 +41,31 @@ fn main() {
                 let p = Pipeline::from_exec_iter(cmds.iter().map(|c| mk_exec(c)));
                 let dbg = format!("{:?}", p);
                 writeln!(out, "pipe {}", enc_str(&dbg)).unwrap();
+            }
+            "wincmd" => {
+                let argv = dec_argv_u16(rest);
+                match wincut::real_assemble_cmdline(argv) {
+                    Ok(cl) => writeln!(out, "wincmd ok {}", enc_units(cl.into_iter().map(|c| c as u32))).unwrap(),
+                    Err(e) => writeln!(out, "wincmd err {}", e.replace(' ', "_")).unwrap(),
+                }
+            }
+            "winenv" => {
+                // pairs k=v separated by ',' ; k and v are unit words separated by '='
+                let env: Vec<(Vec<u16>, Vec<u16>)> = if rest == "none" {
+                    vec![]
+                } else {
+                    rest.split(',')
+                        .map(|kv| {
+                            let (k, v) = kv.split_once('=').unwrap();
+                            (
+                                dec_units(k).into_iter().map(|c| c as u16).collect(),
+                                dec_units(v).into_iter().map(|c| c as u16).collect(),
+                            )
+                        })
+                        .collect()
+                };
+                let b = wincut::real_format_env_block(env);
+                writeln!(out, "winenv {}", enc_units(b.into_iter().map(|c| c as u32))).unwrap();
             }
             _ => panic!("unknown case kind {}", kind),
         }
